@@ -113,8 +113,6 @@ def compare(cx, actual, expected, label, seen=None, kind="post"):
         seen = set()
     if actual is expected and not isinstance(actual, (Arr, Obj, dict, list)):
         return
-    if V.is_z3(actual) and V.is_z3(expected) and actual.eq(expected):
-        return
     if isinstance(actual, Arr) or isinstance(expected, Arr):
         if not (isinstance(actual, Arr) and isinstance(expected, Arr)):
             if isinstance(actual, Arr) and actual.ndim == 0:
